@@ -7,11 +7,75 @@ FLIP = {'<': '>', '>': '<', '<=': '>=', '>=': '<=', '==': '==', '!=': '!='}
 NEG = {'<': '>=', '>': '<=', '<=': '>', '>=': '<', '==': '!=', '!=': '=='}
 
 
+_ALIAS = []      # stack of {local name: initialiser expression} of the function being rendered
+_ABSTRACT = []   # stack of {local name: type} rendered as $<type> (guard baseline: names of other locals are not facts)
+
+
+def local_aliases(func):
+    """{name: init expr} for locals defined exactly once (declaration with a call-free initialiser), never assigned, incremented
+    or address-taken afterwards: renaming or introducing such a local does not change what a condition tests"""
+    init = {}
+    bad = set()
+    types = {}
+    for _, _, ev in func.events():
+        if ev['k'] == 'decl':
+            for d in ev['d']:
+                types[d['n']] = d.get('ty', '')
+                i_ = cf.strip_casts(d.get('init')) if d.get('init') is not None else None
+                if isinstance(i_, dict) and i_.get('k') == 'initlist':
+                    # a local constant table is identified by its contents, not by its name
+                    vals = [cf.evalc(x) for x in i_.get('a', [])]
+                    if all(v is not None for v in vals):
+                        import hashlib
+                        types[d['n']] = '%s{%s}' % (d.get('ty', ''), hashlib.sha1(repr(vals).encode()).hexdigest()[:8])
+                if d['n'] in init or d['n'] in bad:
+                    bad.add(d['n'])
+                elif d.get('init') is not None and not cf.calls_in(d['init']) and cf.strip_casts(d['init']).get('k') != 'initlist':
+                    init[d['n']] = d['init']
+                else:
+                    bad.add(d['n'])
+        elif ev['k'] == 'assign':
+            b = cf.base_ref(ev['lhs'])
+            l = cf.strip_casts(ev['lhs'])
+            if isinstance(l, dict) and l.get('k') == 'ref':
+                bad.add(l['n'])
+        for k in ('e', 'lhs', 'rhs', 'val'):
+            if ev.get(k) is not None:
+                for n in cf.walk(ev[k]):
+                    if n.get('k') == 'un' and n.get('op') == '&':
+                        x = cf.strip_casts(n['e'])
+                        if isinstance(x, dict) and x.get('k') == 'ref':
+                            bad.add(x['n'])
+    pn = {p['name'] for p in func.params}
+    al = {n: e for n, e in init.items() if n not in bad and n not in pn}
+    # an alias must not (transitively) mention a non-alias local that is reassigned in a way we cannot order: accept as is
+    return al, {n: t for n, t in types.items() if n not in al and n not in pn}
+
+
+class in_function:
+    """with guards.in_function(func): conditions are rendered with single-definition locals replaced by their initialisers"""
+
+    def __init__(self, func, abstract=False):
+        self.al, self.types = local_aliases(func)
+        self.abstract = abstract
+
+    def __enter__(self):
+        _ALIAS.append(self.al)
+        _ABSTRACT.append(self.types if self.abstract else {})
+        return self
+
+    def __exit__(self, *a):
+        _ALIAS.pop()
+        _ABSTRACT.pop()
+
+
 def lv(e):
     """canonical rendering of an lvalue / general expression with constants folded"""
     e = cf.strip_casts(e)
     if not isinstance(e, dict):
         return '?'
+    if e.get('k') == 'call':
+        e = cf.strip_casts(cf.inline_pure(e))   # predicate factored out into a `return <expr>` helper
     v = cf.evalc(e)
     if v is not None:
         return str(v)
@@ -24,6 +88,20 @@ def lv(e):
             return b[:-1] + e['f']
         return b + ('->' if e.get('arrow') else '.') + e['f']
     if k == 'ref':
+        if _ALIAS and e['n'] in _ALIAS[-1] and not e.get('p') and not e.get('g'):
+            al = _ALIAS[-1]
+            init = al[e['n']]
+            _ALIAS.append({k_: v_ for k_, v_ in al.items() if k_ != e['n']})   # no cycles
+            _ABSTRACT.append(_ABSTRACT[-1] if _ABSTRACT else {})
+            try:
+                return lv(init)
+            finally:
+                _ALIAS.pop()
+                _ABSTRACT.pop()
+        if _PSUB and e.get('p') and e['n'] in _PSUB[-1]:
+            return _PSUB[-1][e['n']]
+        if _ABSTRACT and e['n'] in _ABSTRACT[-1] and not e.get('p') and not e.get('g'):
+            return '$<%s>' % _ABSTRACT[-1][e['n']].replace('const ', '').strip()
         return e['n']
     if k == 'idx':
         return '%s[%s]' % (lv(e['b']), lv(e['i']))
@@ -68,6 +146,8 @@ def canon(e, neg=False):
     e = cf.strip_casts(e)
     if not isinstance(e, dict):
         return '?'
+    if e.get('k') == 'call':
+        e = cf.strip_casts(cf.inline_pure(e))
     k = e.get('k')
     if k == 'un' and e['op'] == '!':
         return canon(e['e'], not neg)
@@ -175,24 +255,17 @@ def _terminating(func, bid):
     return any(e['k'] == 'return' for e in b['ev']) or func.succ(bid) == [func.exit] and not b['ev']
 
 
-def catalogue(func):
+def catalogue(func, abstract=False):
     """list of guards: dict(block, err, errval, ret, cond, ctx[list of canon strings], cases{expr:set}, loc, canon)"""
-    out = []
-    dom = func.dominators()
-    cctx = case_contexts(func)
-    for bid, b in func.blocks.items():
-        g = is_guard_block(b)
-        if not g:
-            continue
-        err, ret, cev = g
-        own = None
-        for p in func.pred[bid]:
-            t = func.blocks[p].get('term')
-            if t and t['kind'] == 'IfStmt' and func.blocks[p]['succ'][0] == bid and 'fullcond' in t:
-                own = (p, t['fullcond'])
-        ctx = []
+    with in_function(func, abstract=abstract):
+        return _catalogue(func)
+
+
+def _ctx_of(func, dom, bid, skip=None):
+    ctx = []
+    if True:
         for d in sorted(dom.get(bid, ()), reverse=True):
-            if d == bid or (own and d == own[0]):
+            if d == bid or d == skip:
                 continue
             db = func.blocks[d]
             t = db.get('term')
@@ -213,6 +286,28 @@ def catalogue(func):
                 ctx.append(canon(t['fullcond']))
             elif fdom and not tdom:
                 ctx.append(canon(t['fullcond'], True))
+    return ctx
+
+
+HELPER_SKIP = {'is_job_invalid', 'is_job_invalid_light'}
+_PSUB = []   # stack of {callee parameter name: argument rendered in the caller's terms}
+
+
+def _catalogue(func, depth=0):
+    out = []
+    dom = func.dominators()
+    cctx = case_contexts(func)
+    for bid, b in func.blocks.items():
+        g = is_guard_block(b)
+        if not g:
+            continue
+        err, ret, cev = g
+        own = None
+        for p in func.pred[bid]:
+            t = func.blocks[p].get('term')
+            if t and t['kind'] == 'IfStmt' and func.blocks[p]['succ'][0] == bid and 'fullcond' in t:
+                own = (p, t['fullcond'])
+        ctx = _ctx_of(func, dom, bid, own[0] if own else None)
         g = {
             'block': bid, 'err': cf.strip_casts(err).get('enum') or lv(err), 'errval': cf.evalc(err),
             'ret': cf.evalc(ret) if ret is not None else None,
@@ -220,4 +315,52 @@ def catalogue(func):
             'loc': cev.get('sloc') or cev['loc'], 'unconditional': own is None, 'expr': own[1] if own else None,
         }
         out.append(g)
+    # checks factored out into a helper: `if (helper(args)) return <reject>;` contributes the helper's guards, with the helper's
+    # parameters expressed through the arguments, under the context of the call
+    P = cf.PROGRAM[0]
+    if P is not None and depth < 2:
+        for bid, b in func.blocks.items():
+            t = b.get('term')
+            if not t or t['kind'] != 'IfStmt' or len(b['succ']) != 2 or b['succ'][0] is None:
+                continue
+            c = cf.strip_casts(t.get('cond'))
+            while isinstance(c, dict) and c.get('k') == 'bin' and c['op'] in ('&&', '||'):
+                c = cf.strip_casts(c['r'])
+            neg = False
+            if isinstance(c, dict) and c.get('k') == 'un' and c['op'] == '!':
+                c, neg = cf.strip_casts(c['e']), True
+            if isinstance(c, dict) and c.get('k') == 'bin' and c['op'] in ('!=', '==') and cf.evalc(c['r']) == 0:
+                neg = neg != (c['op'] == '==')
+                c = cf.strip_casts(c['l'])
+            if not (isinstance(c, dict) and c.get('k') == 'call' and c.get('fn')) or c['fn'] in HELPER_SKIP or c['fn'] == func.name:
+                continue
+            if not P.has(func.tu, c['fn']):
+                continue
+            rej = b['succ'][1] if neg else b['succ'][0]
+            if rej is None or not any(ev['k'] == 'return' for ev in func.blocks[rej]['ev']):
+                continue
+            H = P.func(func.tu, c['fn'])
+            if not any(True for _ in H.calls('imb_set_errno')):
+                continue
+            psub = {}
+            for i, prm in enumerate(H.params):
+                if i < len(c.get('a', [])):
+                    psub[prm['name']] = lv(c['a'][i])
+            site_ctx = _ctx_of(func, dom, bid, None)
+            site_cases = cctx.get(bid, {})
+            _PSUB.append(psub)
+            try:
+                with in_function(H, abstract=bool(_ABSTRACT and _ABSTRACT[-1])):
+                    hcat = _catalogue(H, depth + 1)
+            finally:
+                _PSUB.pop()
+            for g in hcat:
+                g2 = dict(g)
+                cs = dict(site_cases)
+                cs.update(g['cases'])
+                g2['cases'] = cs
+                g2['ctx'] = sorted(site_ctx + g['ctx'])
+                g2['via'] = H.name
+                g2['block'] = bid
+                out.append(g2)
     return out
